@@ -1,6 +1,29 @@
-(** C05 - placeholder until the binding theorems land. *)
-From Coq Require Import List NArith.
-From BP Require Import Model.Transcript.
+(** C05 — statement binding: the deterministic parts.  Rejection of an altered ABSORBED component after
+    the log has changed holds with probability 1 - O(1/l) over the fresh challenges (random oracle +
+    C02) and is NOT a theorem; what is proved: every alteration of an absorbed component changes the log
+    (so no alteration is invisible to the challenges), identity / shape alterations are refused
+    outright. *)
+From Coq Require Import List Arith NArith Bool.
+From BP Require Import Base.Field Model.Codec Model.Transcript Model.Verifier Model.VerifyTop Proofs.TranscriptP Proofs.VerifyTopP.
+Import ListNotations.
+
+Theorem C05_absorbed_component_changes_log : forall s s' p p' l,
+  List.length (p_li p) = List.length (p_ri p) -> List.length (p_li p') = List.length (p_ri p') ->
+  verifier_ops s p = Some l -> verifier_ops s' p' = Some l ->
+  tstmt_equiv s s' /\ p_a p = p_a p' /\ p_li p = p_li p' /\ p_ri p = p_ri p' /\ p_a1 p = p_a1 p' /\ p_b p = p_b p' /\
+  p_r1 p = p_r1 p' /\ p_s1 p = p_s1 p' /\ p_d1 p = p_d1 p'.
+Proof. exact verifier_ops_injective. Qed.
+Print Assumptions C05_absorbed_component_changes_log.
+
 Theorem C05_identity_point_rejected : forall l, app_point l 0%N = None.
 Proof. reflexivity. Qed.
 Print Assumptions C05_identity_point_rejected.
+
+(** a member that disagrees with the first one on bit length, extension degree or Pedersen generators
+    makes the whole chunk an error (bit length / generator alterations inside a batch) *)
+Theorem C05_disagreement_refused : forall (K : Fld) ofN mode first rest ws z,
+  (exists mb, In mb rest /\ (mb_bits K mb <> mb_bits K first \/ mb_T K mb <> mb_T K first \/ mb_Henc K mb <> mb_Henc K first
+                             \/ mb_Gbenc K mb <> mb_Gbenc K first)) ->
+  fst (verify_chunk K ofN mode (first :: rest) ws z) = Err.
+Proof. exact chunk_refuses_disagreement. Qed.
+Print Assumptions C05_disagreement_refused.
